@@ -1,8 +1,11 @@
 package main
 
 import (
+	"fmt"
 	"go/token"
 	"go/types"
+	"sort"
+	"strings"
 
 	"golang.org/x/tools/go/ssa"
 )
@@ -54,67 +57,126 @@ func (c *Ctx) findCtor() *ctorModel {
 	if v2s == nil {
 		return nil
 	}
+	osr := c.Named("pkg/ipmi", "OpenSessionRsp")
+	r2 := c.Named("pkg/ipmi", "RAKPMessage2")
+	r4 := c.Named("pkg/ipmi", "RAKPMessage4")
+	// the constructor: the function whose flattened view allocates the session and makes the
+	// three handshake exchanges (in its own body or in stage helpers spliced into it); when the
+	// stages nest, the outermost such function that is not itself only a spliced helper
+	var best *ctorModel
+	var cands []*ctorModel
 	for _, fn := range c.LibFuncs() {
-		var lit *ssa.Alloc
-		rawInstrs(fn, false, func(in ssa.Instruction) {
-			if al, ok := in.(*ssa.Alloc); ok {
-				if n, ok := al.Type().(*types.Pointer).Elem().(*types.Named); ok && n.Obj() == v2s.Obj() {
-					lit = al
-				}
-			}
-		})
-		if lit == nil {
+		if fn.Parent() != nil {
 			continue
 		}
-		m := &ctorModel{Fn: fn, Lit: lit}
-		osr := c.Named("pkg/ipmi", "OpenSessionRsp")
-		r2 := c.Named("pkg/ipmi", "RAKPMessage2")
-		r4 := c.Named("pkg/ipmi", "RAKPMessage4")
-		rawInstrs(fn, false, func(in ssa.Instruction) {
-			call, ok := in.(*ssa.Call)
-			if !ok {
-				return
-			}
-			switch {
-			case resultPtrTo(call, osr):
-				m.OpenCall = call
-				m.OpenRsp = extractOf(call, 0)
-			case resultPtrTo(call, r2):
-				m.R1Call = call
-				m.M2 = extractOf(call, 0)
-				args := callArgs(&call.Call)
-				if len(args) > 0 {
-					m.M1 = args[len(args)-1]
+		m := &ctorModel{Fn: fn}
+		viewInstrs(fn, func(in ssa.Instruction) {
+			switch x := in.(type) {
+			case *ssa.Alloc:
+				if n, ok := x.Type().(*types.Pointer).Elem().(*types.Named); ok && n.Obj() == v2s.Obj() {
+					m.Lit = x
 				}
-			case resultPtrTo(call, r4):
-				m.R3Call = call
-				m.M4 = extractOf(call, 0)
+			case *ssa.Call:
+				// the innermost call of each kind: the one whose last argument is the request it sends
+				switch {
+				case resultPtrTo(x, osr):
+					if m.OpenCall == nil || !flatOf(fn).Spliced(x) || lastArgIsRequest(x) {
+						m.OpenCall = x
+						m.OpenRsp = extractOf(x, 0)
+					}
+				case resultPtrTo(x, r2):
+					args := callArgs(&x.Call)
+					if len(args) > 0 && isPtrTo(args[len(args)-1].Type(), c.Named("pkg/ipmi", "RAKPMessage1")) {
+						m.R1Call = x
+						m.M2 = extractOf(x, 0)
+						m.M1 = args[len(args)-1]
+					}
+				case resultPtrTo(x, r4):
+					m.R3Call = x
+					m.M4 = extractOf(x, 0)
+				}
 			}
 		})
-		for _, p := range fn.Params {
-			if pt, ok := p.Type().(*types.Pointer); ok {
-				if n, ok := pt.Elem().(*types.Named); ok && n.Obj().Name() == "V2SessionOpts" {
-					m.Opts = p
+		if m.Lit == nil || m.R1Call == nil || m.R3Call == nil {
+			continue
+		}
+		for _, f := range flatOf(fn).Funcs() {
+			for _, p := range f.Params {
+				if pt, ok := p.Type().(*types.Pointer); ok {
+					if n, ok := pt.Elem().(*types.Named); ok && n.Obj().Name() == "V2SessionOpts" && (m.Opts == nil || f == fn) {
+						m.Opts = p
+					}
 				}
 			}
 		}
-		return m
+		cands = append(cands, m)
 	}
-	return nil
+	// the innermost function that has everything (the exported wrapper around the constructor
+	// has it too, through the constructor): the one whose view contains no other candidate
+	for _, m := range cands {
+		inner := true
+		for _, f := range flatOf(m.Fn).Funcs() {
+			for _, o := range cands {
+				if o != m && f == o.Fn {
+					inner = false
+				}
+			}
+		}
+		if inner {
+			best = m
+		}
+	}
+	return best
+}
+
+// lastArgIsRequest: the call's last argument is a freshly built request object.
+func lastArgIsRequest(call *ssa.Call) bool {
+	args := callArgs(&call.Call)
+	if len(args) == 0 {
+		return false
+	}
+	_, ok := args[len(args)-1].(*ssa.Alloc)
+	return ok
 }
 
 // fieldLoadOf: v is a load of field `name` of the object pointed to by base.
 func fieldLoadOf(v ssa.Value, base ssa.Value, name string) bool {
+	v = canonValue(v)
 	ld, ok := v.(*ssa.UnOp)
 	if !ok || ld.Op != token.MUL {
 		return false
 	}
 	fa, ok := ld.X.(*ssa.FieldAddr)
-	if !ok || fa.X != base {
+	if !ok || (fa.X != base && canonValue(fa.X) != canonValue(base)) {
 		return false
 	}
 	f := structField(fa.X.Type(), fa.Field)
 	return f != nil && f.Name() == name
+}
+
+// selLoadOf: v is a load of the field path sel ("AuthenticationPayload.Algorithm") of the
+// object base points to — base possibly read back from a single-writer state field.
+func selLoadOf(v ssa.Value, base ssa.Value, sel string) bool {
+	v = canonValue(v)
+	ld, ok := v.(*ssa.UnOp)
+	if !ok || ld.Op != token.MUL || base == nil {
+		return false
+	}
+	var names []string
+	addr := ld.X
+	for i := 0; i < 6; i++ {
+		fa, ok := addr.(*ssa.FieldAddr)
+		if !ok {
+			break
+		}
+		f := structField(fa.X.Type(), fa.Field)
+		if f == nil {
+			return false
+		}
+		names = append([]string{f.Name()}, names...)
+		addr = fa.X
+	}
+	return len(names) > 0 && strings.Join(names, ".") == sel && (addr == base || canonValue(addr) == canonValue(base))
 }
 
 // sessionSuccessPaths enumerates the constructor's paths that return the
@@ -161,4 +223,49 @@ func rawIfsOf(fn *ssa.Function) []*ssa.If {
 		}
 	}
 	return out
+}
+
+// checkStateReads: the rules read a single-writer field of a state struct as the value its
+// one store put there (canonValue). Within the constructor's view that is right only where
+// the store has happened before the read on every path — a stage that reads `h.sik` before
+// the stage that computes it reads nil. Every such read in the view whose writer is also in
+// the view must be preceded by the write.
+func (c *Ctx) checkStateReads(r *Report, m *ctorModel, name string, only func(f *types.Var) bool) {
+	fl := flatOf(m.Fn)
+	n := 0
+	var bad []string
+	var badPos token.Pos
+	viewInstrs(m.Fn, func(in ssa.Instruction) {
+		ld, ok := in.(*ssa.UnOp)
+		if !ok || ld.Op != token.MUL {
+			return
+		}
+		fa, ok := ld.X.(*ssa.FieldAddr)
+		if !ok {
+			return
+		}
+		f := structField(fa.X.Type(), fa.Field)
+		if !stateStructField(f) || !isStateStructType(fa.X.Type()) || len(fieldStores[f]) != 1 {
+			return
+		}
+		if only != nil && !only(f) {
+			return // not a value this property's rules read through
+		}
+		st := fieldStores[f][0]
+		if len(fl.segsOf(st)) == 0 {
+			return // written by another operation: not a value of this one
+		}
+		n++
+		if !fl.MustPrecede(st, ld) {
+			bad = append(bad, f.Name()+" at "+c.Pos(ld.Pos()))
+			if !badPos.IsValid() {
+				badPos = ld.Pos()
+			}
+		}
+	})
+	if !badPos.IsValid() {
+		badPos = m.Fn.Pos()
+	}
+	sort.Strings(bad)
+	r.Check(len(bad) == 0, name+"|state fields written before read", badPos, fmt.Sprintf("%d reads of handshake state follow the one write of their field", n), "handshake state is read before the stage that stores it has run: "+strings.Join(bad, ", "))
 }
